@@ -39,10 +39,11 @@ func (s BatchedPrivateTokenRequestState) FinalizeTokens(tokenResponseEnc []byte)
 	reader := cryptobyte.String(tokenResponseEnc)
 
 	l, offset := quicwire.ConsumeVarint(tokenResponseEnc)
-	reader.Skip(offset)
-
-	encodedElements := make([]byte, l)
-	if !reader.ReadBytes(&encodedElements, len(encodedElements)) {
+	if offset < 0 || !reader.Skip(offset) || l > uint64(len(reader)) {
+		return nil, fmt.Errorf("invalid batch token response list encoding")
+	}
+	var encodedElements []byte
+	if !reader.ReadBytes(&encodedElements, int(l)) {
 		return nil, fmt.Errorf("invalid batch token response list encoding")
 	}
 
